@@ -187,15 +187,21 @@ def roundDiv (N D : Nat) : Nat :=
   let r := N % D
   if 2 * r > D ∨ (2 * r = D ∧ q % 2 = 1) then q + 1 else q
 
+/-- `n / d` scaled by `2^-e`, as a fraction of naturals. -/
+def f32Scale (n d : Nat) (e : Int) : Nat × Nat :=
+  if e ≥ 0 then (n, d * 2 ^ e.toNat) else (n * 2 ^ (-e).toNat, d)
+
+/-- The integer part of `(n / d) / 2^e`. -/
+def f32Q (n d : Nat) (e : Int) : Nat := (f32Scale n d e).1 / (f32Scale n d e).2
+
 /-- binary32 image of the positive rational `n / d` (normal range): `(m, e)` with value `m · 2^e` and
-`2^23 ≤ m < 2^24`; `(0, 0)` for zero. -/
+`2^23 ≤ m < 2^24`; `(0, 0)` for zero.  The exponent is chosen from the bit lengths of `n` and `d` and corrected
+by one if needed; the mantissa is the round-half-even quotient at that exponent. -/
 def f32OfRat (n d : Nat) : Nat × Int :=
   if n = 0 ∨ d = 0 then (0, 0) else
-  let scale (e : Int) : Nat × Nat := if e ≥ 0 then (n, d * 2 ^ e.toNat) else (n * 2 ^ (-e).toNat, d)
   let e0 : Int := (Nat.log2 n : Int) - (Nat.log2 d : Int) - 23
-  let p0 := scale e0
-  let e1 : Int := if p0.1 / p0.2 ≥ 2 ^ 24 then e0 + 1 else if p0.1 / p0.2 < 2 ^ 23 then e0 - 1 else e0
-  let p := scale e1
+  let e1 : Int := if f32Q n d e0 ≥ 2 ^ 24 then e0 + 1 else if f32Q n d e0 < 2 ^ 23 then e0 - 1 else e0
+  let p := f32Scale n d e1
   let q' := roundDiv p.1 p.2
   if q' = 2 ^ 24 then (2 ^ 23, e1 + 1) else (q', e1)
 
